@@ -14,10 +14,14 @@ import FGVerif.Model.C06Full
       spec_impl = all processes produced one and the same ordered tree (the property: determinism);
       model = the model's ordered tree (correspondence); orderContract (informative) = roots strictly
       ascending and every children list strictly descending in the model's sort key.
-  `(C06 det <mol id> <snapshot digest before> [<impl>])`
-      impl := ((<hashseed> (<answer> …) (<snapshot digest> …)) …)  -- answers: same object twice, fresh object
-      reply `(ok _ 1 <spec_impl> <number of distinct answers>)`; spec: all answers of all processes are
-      identical and every snapshot digest equals the one taken before the call.
+  `(C06 det <case id = molecule [| kind of query object]> <snapshot digest before> [<impl>])`
+      impl := ((<hashseed> (<answer> …) (<snapshot digest> …)) …)  -- one entry per worker process that was asked this
+              (kind of query object, molecule): answers of the long-lived object (twice) and, when asked, of a freshly
+              built object; a worker whose SET-UP failed sends `((raised Setup…))` and the digest `setup-failed`
+              (which never equals the digest before the call, so such a case fails)
+      reply `(ok _ 1 <spec_impl> <number of distinct answers> <allSame> <untouched>)`; spec: all answers of all
+      processes (pure = only this kind of object was ever built there; mixed = objects of other kinds were built and
+      used before) are identical and every snapshot digest equals the one taken before the call.
   `(C06 e2e <mapper> (<cfgin> …) <env seed> <mol graph> <requireH 0|1> [<impl>])`
       cfgin := (name patternStr <parsed pattern> (<group atom> …)|_ (<parsed anti-pattern> …) <depth>|_)
                -- the ARGUMENTS of `FGConfig.__init__` (anti-patterns in the order given)
